@@ -84,6 +84,12 @@ CHECKS = {
         note="Partial: the expression is sent to the model as a tree, the parse step is C14's subject; time literals / timespan overlap are covered by C11 and C14; POINT / region overlap and float arithmetic are not modelled; '/' is not generated. Legacy deviations C05-b (ranges compiled in lsst.daf.relation, outside the repository) and C05-c ('= NULL' never true) are known findings. Trusted: Lean kernel; harness; SQLite integer arithmetic and BINARY collation.",
         design="DESIGN.md §5 C05",
     ),
+    "C06": dict(
+        technique="Lean 4 proof (natural join of tables over dimension columns equals the conjunction of per-table consistency, for any number of tables and any join order) + facts read from the live universe (the dependency-closed dimension groups, required / implied / always-join / spatial-family metadata) + correspondence of Butler.query_data_ids and Registry.queryDataIds on seeded populations entered through three insertion histories + backtracking oracle over the record dictionaries with sphgeom region relations",
+        text="sat_join (a combination satisfies T1 join T2 iff it satisfies both), query_exact (it is in the result of joining all contributing tables iff it is consistent with every one of them: each dimension's record with its required and implied values, each always-joined membership table, the overlap relation between the finest elements of two spatial families), join_order_irrelevant and more_tables_fewer_rows are proved in Lean 4 for all tables. Dimension groups are enumerated from the live universe (all dependency-closed subsets of its 13 non-skypix dimensions); for seeded populations (foreign-key patterns, NULL regions, touching / nested / disjoint regions on a grid) the selected tables go to the model and the real queries run on repositories populated by bulk insert, by shuffled syncDimensionData, and by displaced regions corrected through replace and sync-update; results must equal the model's, the oracle's and each other.",
+        note="Partial: the theorem is about the relational rule; that the code selects exactly these tables for each group is established by the correspondence over the enumerated groups, not by translating the query builder; geometry (sphgeom) is trusted; skypix dimensions and where-clause spatial constraints are outside this check. Trusted: Lean kernel; harness; SQLite.",
+        design="DESIGN.md §5 C06",
+    ),
     "C07": dict(
         technique="Lean 4 proof (transaction programs as an inductive type; run of a failed block restores files, registry and undo stack exactly, for every program, nesting depth and fuel) + correspondence of generated programs on a real Butler + fault injection at every SQL / file boundary of the additive and removal operations with a snapshot-equality oracle",
         text="rollback_exact, effect_all (every program run from any state either commits files/registry extensions that are exactly its own puts or, when it fails, restores the state it started from, with caught inner failures at any depth), failed_block_restores and txn_state_restored (the datastore transaction stack is the same after any block, failed or not) are proved in Lean 4 for every program and every fuel; old_code_leaks / new_code_restores_witness keep the repaired defect C07-a as a kernel-checked regression witness. A second model (TxnCache) covers registry rows behind read-through caches and pruneDatasets inside blocks: Cache.coherent_all (the cached view never differs from the database, for every program), Cache.failed_block_registry_restored (rows, datasets and the cached view are as before a failed block), Cache.files_filter_all / failed_block_files (a block never adds artifacts and removes only what it prunes), Cache.failed_block_files_restored_partial (exact restoration for blocks without pruneDatasets) and the refutation witness Cache.prune_in_failed_block_loses_artifact (known finding C07-c); old_code_stale_cache is the regression witness of repaired defect C07-d. The models are compared with Butler.transaction() programs (nesting <= 3, caught / uncaught failures raised as Exception, BaseException, KeyboardInterrupt, SystemExit or by a refused re-put; inserts of dimension records / dataset types / runs read back through the cached interfaces; pruneDatasets inside blocks) on a real repository; put, put-in-block, ingest(copy, move), import_, transfer_from, pruneDatasets(purge) and removeRuns are run once per SQL / filesystem boundary with a fault injected there and the registry dump, records table and recursive root listing are compared before/after.",
